@@ -1,11 +1,13 @@
 #!/bin/bash
-# tools/seedtest.sh <patch.diff> <ID> [tier]   — apply a seeded change to /repo, run the check, undo.
-P=$1; ID=$2; TIER=${3:-quick}
-cd /repo || exit 2
-if ! git diff --quiet; then echo "/repo has uncommitted changes"; exit 2; fi
-if ! git apply --check "$P" 2>/dev/null; then MODE=--3way; fi
-if ! git apply $MODE "$P" >/dev/null 2>&1 || git diff --name-only --diff-filter=U | grep -q .; then
-  git reset -q --hard HEAD; echo "PATCH DOES NOT APPLY CLEANLY: $P"; exit 3
+# tools/seedtest.sh <patch.diff> <ID> [tier]  — apply a seeded change to a scratch worktree of /repo (HEAD),
+# run the check against it (VERIF_REPO), remove the worktree. /repo itself is not touched.
+P=$(readlink -f "$1"); ID=$2; TIER=${3:-quick}
+WT=/tmp/seedrun.$$.$RANDOM
+git -C /repo worktree add -q --detach $WT HEAD || exit 2
+trap 'git -C /repo worktree remove --force '$WT' 2>/dev/null' EXIT
+cd $WT
+if ! git apply "$P" >/dev/null 2>&1; then
+  git apply --3way "$P" >/dev/null 2>&1
+  if git diff --name-only --diff-filter=U | grep -q . || git diff --quiet; then echo "PATCH DOES NOT APPLY CLEANLY: $P"; exit 3; fi
 fi
-( cd /verif && ./check "$ID" "$TIER" -no-evidence 2>&1 | grep -v "child finished" | cut -c1-400 | head -12 )
-git -C /repo reset -q --hard HEAD
+( cd /verif && VERIF_REPO=$WT ./check "$ID" "$TIER" -no-evidence 2>&1 | grep -v "child finished" | cut -c1-400 | head -12 )
